@@ -604,9 +604,15 @@ func (c *Checker) helperImplies(call *ssa.Call, isErr bool, want bool, atoms []A
 			}
 		}
 		n++
-		if ok, _ := hc.MustPass(b, atoms); !ok {
+		if ok, w := hc.MustPass(b, atoms); !ok {
+			if os.Getenv("SAODEBUG") != "" {
+				fmt.Fprintf(os.Stderr, "  helperImplies %s want=%v: return at b%d not covered: %v\n", c.P.Name(h), want, b.Index, w)
+			}
 			return false
 		}
+	}
+	if os.Getenv("SAODEBUG") != "" {
+		fmt.Fprintf(os.Stderr, "  helperImplies %s want=%v: n=%d\n", c.P.Name(h), want, n)
 	}
 	return n > 0
 }
@@ -796,6 +802,50 @@ type siteAlt struct {
 	cut bool
 	eq  map[string]string
 	ne  map[string][]string
+	// nonNil: caller-side argument values that this return site needs to be non-nil / non-empty (the site lies
+	// behind the non-empty side of a test of the corresponding parameter)
+	nonNil []ssa.Value
+}
+
+// nonNilParams: parameters of the checked helper that are tested non-nil / non-empty on the single-predecessor
+// chain of branch edges above block b.
+func (c *Checker) nonNilParams(b *ssa.BasicBlock) []int {
+	var out []int
+	for x := b; x != nil && len(x.Preds) == 1; x = x.Preds[0] {
+		d := x.Preds[0]
+		iff := cfgx.IfOf(d)
+		if iff == nil || len(d.Succs) != 2 || d.Succs[0] == d.Succs[1] {
+			continue
+		}
+		v, pol := stripNot(iff.Cond)
+		truth := (d.Succs[0] == x) == pol // value of v on the edge taken
+		var tested ssa.Value
+		switch y := v.(type) {
+		case *ssa.Call:
+			if sc := y.Call.StaticCallee(); sc != nil && sc.Name() == "Empty" && len(y.Call.Args) == 1 && !truth {
+				tested = y.Call.Args[0]
+			}
+		case *ssa.BinOp:
+			if y.Op == token.EQL || y.Op == token.NEQ {
+				a, k := y.X, y.Y
+				if cv, isC := a.(*ssa.Const); isC && cv.Value == nil {
+					a, k = k, a
+				}
+				if cv, isC := k.(*ssa.Const); isC && cv.Value == nil && nillable(cv.Type()) && truth == (y.Op == token.NEQ) {
+					tested = a
+				}
+			}
+		}
+		if tested == nil {
+			continue
+		}
+		for i, q := range c.Fn.Params {
+			if ssa.Value(q) == tested {
+				out = append(out, i)
+			}
+		}
+	}
+	return out
 }
 
 // mustFacts: equalities / disequalities of terms with constants that hold whenever block b of the checked function is
@@ -895,7 +945,13 @@ func (c *Checker) helperAlts(call *ssa.Call, isErr bool, want bool, atoms []Atom
 			}
 		}
 		eq, ne := hc.mustFacts(b)
-		out = append(out, siteAlt{cut: est, eq: eq, ne: ne})
+		var nn []ssa.Value
+		for _, i := range hc.nonNilParams(b) {
+			if i < len(call.Call.Args) {
+				nn = append(nn, call.Call.Args[i])
+			}
+		}
+		out = append(out, siteAlt{cut: est, eq: eq, ne: ne, nonNil: nn})
 	}
 	return out
 }
@@ -928,7 +984,7 @@ func (c *Checker) altEdges(atoms []Atom, cut map[cfgx.Edge]bool) map[cfgx.Edge][
 			alts := c.helperAlts(call, isErr, want, atoms)
 			useful := false
 			for _, a := range alts {
-				if a.cut || len(a.eq) > 0 || len(a.ne) > 0 {
+				if a.cut || len(a.eq) > 0 || len(a.ne) > 0 || len(a.nonNil) > 0 {
 					useful = true
 				}
 			}
@@ -1653,6 +1709,14 @@ func (c *Checker) searchMode(target *ssa.BasicBlock, atoms []Atom, avoid bool) (
 					}
 					aeq, ane := copyMap(neq), copyMap(nne)
 					feasible := true
+					for _, av := range a.nonNil {
+						if cv, isC := av.(*ssa.Const); isC && cv.Value == nil {
+							feasible = false
+						}
+						if _, isPhi := av.(*ssa.Phi); isPhi && !isBool(av) && nv[av] == -1 {
+							feasible = false // the argument is the nil constant on this path
+						}
+					}
 					for t, k := range a.eq {
 						if cur, ok := aeq[t]; ok && cur != k {
 							feasible = false
@@ -1790,14 +1854,14 @@ func DefinitelyNonNil(v ssa.Value, d int) bool {
 			n := sc.Name()
 			if n == "Errorf" || n == "New" || n == "Error" || n == "Wrap" || n == "Wrapf" {
 				if (n == "Wrap" || n == "Wrapf") && len(x.Call.Args) > 0 {
-					return DefinitelyNonNil(x.Call.Args[0], d+1)
+					return DefinitelyNonNil(x.Call.Args[0], d+1) || testedNonNilAbove(x.Call.Args[0], x.Block())
 				}
 				return true
 			}
 		}
 		if u, ok := x.Call.Value.(*ssa.UnOp); ok {
 			if g, ok := u.X.(*ssa.Global); ok && (g.Name() == "Wrap" || g.Name() == "Wrapf") && len(x.Call.Args) > 0 {
-				return DefinitelyNonNil(x.Call.Args[0], d+1)
+				return DefinitelyNonNil(x.Call.Args[0], d+1) || testedNonNilAbove(x.Call.Args[0], x.Block())
 			}
 		}
 		// a module function with a body all of whose returns are non-nil (a constructor such as  return &T{...})
@@ -1823,6 +1887,39 @@ func DefinitelyNonNil(v ssa.Value, d int) bool {
 		return true
 	case *ssa.ChangeInterface:
 		return DefinitelyNonNil(x.X, d+1)
+	}
+	return false
+}
+
+// testedNonNilAbove: block b is reached only through the non-nil side of a test of e against nil.
+func testedNonNilAbove(e ssa.Value, b *ssa.BasicBlock) bool {
+	if b == nil {
+		return false
+	}
+	for _, d := range b.Parent().Blocks {
+		iff := cfgx.IfOf(d)
+		if iff == nil || len(d.Succs) != 2 || d.Succs[0] == d.Succs[1] {
+			continue
+		}
+		v, pol := stripNot(iff.Cond)
+		bo, ok := v.(*ssa.BinOp)
+		if !ok || (bo.Op != token.NEQ && bo.Op != token.EQL) {
+			continue
+		}
+		x, y := bo.X, bo.Y
+		if c, isC := x.(*ssa.Const); isC && c.Value == nil {
+			x, y = y, x
+		}
+		if c, isC := y.(*ssa.Const); !isC || c.Value != nil || x != e {
+			continue
+		}
+		side := d.Succs[0]
+		if (bo.Op == token.EQL) == pol {
+			side = d.Succs[1]
+		}
+		if len(side.Preds) == 1 && (side == b || side.Dominates(b)) {
+			return true
+		}
 	}
 	return false
 }
